@@ -462,9 +462,9 @@ func (cdfFile *CDRFile) Decoding(fileName string) {
 	// Length
 	numberOfCdrsInFile := binary.BigEndian.Uint32(data[18:22])
 	lengthOfCdrRouteingFilter := binary.BigEndian.Uint16(data[48:50])
-	xy := 50 + lengthOfCdrRouteingFilter
+	xy := 50 + int(lengthOfCdrRouteingFilter)
 	LengthOfPrivateExtension := binary.BigEndian.Uint16(data[xy : xy+2])
-	n := xy + 2 + LengthOfPrivateExtension
+	n := xy + 2 + int(LengthOfPrivateExtension)
 
 	// ip
 	var IpAddressOfNodeThatGeneratedFile [20]byte
